@@ -22,7 +22,7 @@ VERIF = tlc.VERIF
 
 DEFAULT_CONSTS = dict(MaxQ=1, MaxClk=0, Delays={0}, Advances=set(), Params={0},
                       Opt={'ignore': False, 'metas': True}, MaxCFail=0, MaxMFail=0, MaxLevel=12,
-                      EmitEdges=True, Twin='')
+                      EmitEdges=True, Twin='', ExecMany=False)
 
 
 def model_check(name, charts, prop, consts, timeout, workers=16, simulate=None, emit=True):
@@ -131,7 +131,7 @@ def attach_refs(traces_a, traces_b, rel):
 
 # ------------------------------------------------------------------ random drivers (code side)
 
-def random_history(rng, c, length, delays=(0,), advances=(), params=(0,), pfail=0.0, maxq=3, pmfail=0.0):
+def random_history(rng, c, length, delays=(0,), advances=(), params=(0,), pfail=0.0, maxq=3, pmfail=0.0, pexec=0.0):
     """A seeded random input history for chart c."""
     hist = []
     ntr = len(c['trans'])
@@ -151,6 +151,11 @@ def random_history(rng, c, length, delays=(0,), advances=(), params=(0,), pfail=
             hist.append({'op': 'exec', 'gv': [rng.random() < 0.5 for _ in range(ntr)], 'cfail': cf,
                          'mfail': mf})
             q = max(0, q - 1)
+    if rng.random() < pexec:        # Interpreter.execute(max_steps) as the last call
+        for _ in range(rng.randint(1, 3)):
+            hist.append({'op': 'queue', 'ev': rng.choice(c['events']), 'par': rng.choice(params), 'dl': 0})
+        hist.append({'op': 'execute', 'ev': rng.choice([1, 2, 3, 4]), 'par': 0, 'dl': 0,
+                     'gv': [rng.random() < 0.5 for _ in range(ntr)], 'cfail': 0, 'mfail': 0})
     return hist
 
 
